@@ -234,6 +234,10 @@ def ldap_schema(ctx, report):
     ldap = evaluate_messages(ctx, load_spec('opp.json')['constants']['starttls_oid'])
     # the LDAP message parsers: what they accept and refuse is decided by evaluation (C09.R4) when that is possible; the
     # table of explicit rejections covers them otherwise, and the other protocols always
+    # what a parser returns is decided by the bytes it was given: a container that lives in a class level variable and is handed to
+    # every parsed message would carry the edits made to earlier messages (rule shared with C13.R5)
+    from .c13 import shared_containers
+    shared_containers(ctx, report, RULE='C09.R9', only=lambda k: k.module.name in MODULES)
     from ..ldapbridge import evaluate as evaluate_bridge
     ldap_all = ldap['evaluated'] and evaluate_bridge(ctx)['evaluated']
     rejections.check(ctx, report, 'C09.R8', 'opp', skip=(lambda construct: ldap_all and 'tls/ldap.py:LDAP' in construct))
